@@ -7,7 +7,12 @@ PROPS = "RotoV.Props.C04"
 
 def search(ctx):
     # a broken tie/proof: hunt for a concrete (script signature, Rust type) pair
-    # on which the real gate departs from the documented mapping
+    # — or history of requests on one package — on which the real gate departs
+    # from the documented mapping. The boundary stream of the ordinary run
+    # comes first and usually has one already; the bigger run is for the rest.
+    if ctx.impl_violations:
+        ctx.log(f"search: the correspondence run already holds {len(ctx.impl_violations)} concrete failing input(s)")
+        return
     if ctx.build_harness("c04"):
         ctx.harness("c04", ["run", ctx.seed + 7919, "thorough"], timeout=3000, name="search:c04")
 
